@@ -14,6 +14,7 @@ mod c14;
 mod c15;
 mod c17;
 mod c13;
+mod c16;
 
 pub type Gen = fn(&mut util::Rng, &str) -> String;
 pub type Exec = fn(&[&str]) -> String;
@@ -28,6 +29,7 @@ fn table(prop: &str) -> Option<(Gen, Exec)> {
         "C15" => Some((c15::gen, c15::exec)),
         "C17" => Some((c17::gen, c17::exec)),
         "C13" => Some((c13::gen, c13::exec)),
+        "C16" => Some((c16::gen, c16::exec)),
         "C12" => Some((c13::gen12, c13::exec)),
         _ => None,
     }
